@@ -384,7 +384,7 @@ var rRegType = &Rule{
 		}
 		for k := range regTypeTabled {
 			if !seen[k] {
-				c.InternalErr(k, "tabled R-REGTYPE exception no longer matches (stale table)")
+				c.Note("tabled R-REGTYPE exception %q matches no construct any more (harmless; table can be pruned)", k)
 			}
 		}
 		c.Min("registered decoders", n, 28)
